@@ -386,7 +386,7 @@ func fieldFault(t *sim.T, m *gtfsrt.FeedMessage) string {
 		var so string
 		if t.Chance(2, 3) {
 			// well-shaped prefix, odd priority
-			so = "MTASBWY:" + []string{"L", "G", ""}[t.Choose(3)] + ":" + []string{"-3", "-1", "-2147483649", "2147483650", "4294967297", "99999999999999999999", "0", "7", "+5", "", "x", "1e3", "-0", "40", "41", "0x10"}[t.Choose(16)]
+			so = "MTASBWY:" + []string{"L", "G", ""}[t.Choose(3)] + ":" + []string{"-3", "-1", "-2147483649", "2147483650", "4294967297", "99999999999999999999", "0", "7", "+5", "", "x", "1e3", "-0", "40", "41", "0x10", "-", "+", " 7", "7 ", "-x", "٣"}[t.Choose(22)]
 		} else {
 			so = grammarString(t, []string{":", "-", "7", "99999999999999999999", "a", "MTASBWY", " ", "L", "+", "0"}, 5)
 		}
